@@ -16,7 +16,7 @@ typedef struct simmpi_cfg {
     int      testsome_lag_pct;      /* % of Testsome calls reporting nothing although something completed */
     int      testsome_lag_max;      /* bound on consecutive lagged calls per rank */
     int      tag_ub;                /* MPI_TAG_UB attribute (0: INT_MAX) */
-    int      thread_level;          /* provided thread level (0: MPI_THREAD_MULTIPLE) */
+    int      thread_level;          /* thread level MPI_Init_thread provides (0: the requested one) */
 } simmpi_cfg_t;
 
 typedef struct simmpi_stats {
